@@ -201,7 +201,8 @@ def run(F, res, tier):
            how="gate found" if first else "no dominating Some-test on GleamLexer::next")
     second = []
     for g in gs:
-        if (g.get("callee") or "").endswith("Option::<T>::is_none") and g["allowed"] == [True]:
+        if (g.get("callee") or "").endswith("Option::<T>::is_none") and g["allowed"] == [True] or \
+                (g.get("callee") or "").endswith("Option::<T>::is_some") and g["allowed"] == [False]:
             src = defs.origin_op(g["call_t"]["args"][0])
             if src.get("k") == "call" and (callee(src["t"]) or "").endswith("GleamLexer as core::iter::traits::iterator::Iterator>::next"):
                 if not first or src["bb"] != first[0].get("call_bb"):
